@@ -2,10 +2,10 @@
   Handlers/HC18.lean — driver request of property C18 (hierarchical on_final):
 
     c18 <defs> <machine cbs> <roots> <E>
-        defs     list of (id, final, on_final callback ids, state-object id)
+        defs     list of (id, final, on_final callback ids)
         roots    list of trees; tree = id, list of trees        (the OBSERVED configuration)
         E        list of ids                                    (the OBSERVED entered set)
-      → `S <owners> <callbacks> C <0 owners callbacks | 1> W <enteredWF> <nodup ids> <noShared>`
+      → `S <owners> <callbacks> C <0 owners callbacks | 1> W <enteredWF> <nodup ids>`
         S = the specification `Final.expected` (monitor), C = the model of `_final_check`,
         owners: 0 = machine, id+1 = state; lists length-prefixed.
 -/
@@ -25,21 +25,18 @@ def tree : Nat → P Tree
     let kids ← list (tree fuel)
     pure (.node id kids)
 
-def sdef : P (Nat × Bool × List Nat × Nat) := do
-  let id ← nat; let f ← bool; let cbs ← nats; let ob ← nat
-  pure (id, f, cbs, ob)
+def sdef : P (Nat × Bool × List Nat) := do
+  let id ← nat; let f ← bool; let cbs ← nats
+  pure (id, f, cbs)
 
-def mkDefs (ds : List (Nat × Bool × List Nat × Nat)) (mcbs : List Nat) : Defs :=
+def mkDefs (ds : List (Nat × Bool × List Nat)) (mcbs : List Nat) : Defs :=
   { final := fun s => match ds.find? (fun d => d.1 = s) with
       | some d => d.2.1
       | none => false
     onFinal := fun s => match ds.find? (fun d => d.1 = s) with
-      | some d => d.2.2.1
+      | some d => d.2.2
       | none => []
-    machineOnFinal := mcbs
-    obj := fun s => match ds.find? (fun d => d.1 = s) with
-      | some d => d.2.2.2
-      | none => s }
+    machineOnFinal := mcbs }
 
 def encOwner : Owner → Nat
   | .machine => 0
@@ -62,7 +59,7 @@ def request : P String := do
   let c := match finalCheckRoot D E roots with
     | .ok os => 0 :: (encNats (os.map encOwner) ++ encNats (runCalls D os))
     | .attributeError => [1]
-  let w := [encB (enteredWF E roots), encB (nodupNats (idsL roots)), encB (noShared D E roots)]
+  let w := [encB (enteredWF E roots), encB (nodupNats (idsL roots))]
   pure s!"S {joinNats (encNats (sp.map encOwner) ++ encNats (runCalls D sp))} C {joinNats c} W {joinNats w}"
 
 end C18
